@@ -40,11 +40,12 @@ const (
 	b429RA100
 	b500
 	b404
+	bTempErr // a transport error that calls itself temporary but is no timeout
 	nBeh
 )
 
 var behName = [...]string{"503", "OK", "401-Bearer", "401-Basic", "408", "429+Retry-After:1", "429+Retry-After:garbage",
-	"timeout-error", "transport-error", "429", "429+Retry-After:100", "500", "404"}
+	"timeout-error", "transport-error", "429", "429+Retry-After:100", "500", "404", "temporary-non-timeout-error"}
 
 func (b beh) String() string { return behName[b] }
 
@@ -59,7 +60,7 @@ func (b beh) retryable() bool {
 	return false
 }
 
-func (b beh) isError() bool { return b == bTimeout || b == bConnErr }
+func (b beh) isError() bool { return b == bTimeout || b == bConnErr || b == bTempErr }
 
 func (b beh) status(method string) int {
 	switch b {
@@ -97,6 +98,14 @@ func (b beh) retryAfter() time.Duration {
 	}
 	return 0
 }
+
+// tempErr is a net.Error that is temporary without being a timeout (EINTR, a transient resolver
+// failure): not among the failures the statement lists as retried (408 / 429 / 5xx / timeouts).
+type tempErr struct{}
+
+func (tempErr) Error() string   { return "accept: interrupted system call (injected)" }
+func (tempErr) Timeout() bool   { return false }
+func (tempErr) Temporary() bool { return true }
 
 type timeoutErr struct{}
 
@@ -195,6 +204,8 @@ func (f *fake) RoundTrip(req *http.Request) (*http.Response, error) {
 		return nil, timeoutErr{}
 	case bConnErr:
 		return nil, errConn
+	case bTempErr:
+		return nil, tempErr{}
 	}
 	st := b.status(req.Method)
 	h := http.Header{}
